@@ -131,6 +131,8 @@ func (g *Gen) enterLoop(li *loopInfo, ins []inEdge, fwdPreds []*ssa.BasicBlock) 
 		switch {
 		case strings.HasPrefix(gh, "$called:"):
 			g.assert(imp(old, n))
+		case strings.HasPrefix(gh, "$allok:"):
+			g.assert(imp(n, old))
 		case strings.HasPrefix(gh, "$count:"):
 			g.assert(sx(">=", n, old))
 		case strings.HasPrefix(gh, "$since:"), strings.HasPrefix(gh, "$sent:"):
@@ -332,6 +334,7 @@ func (g *Gen) loopMods(li *loopInfo) (comps []string, ghosts []string) {
 						gs["$called:"+name] = true
 						gs["$ok:"+name] = true
 						gs["$count:"+name] = true
+						gs["$allok:"+name] = true
 						for _, sn := range g.sinces {
 							if sn[0] == name || sn[1] == name {
 								gs["$since:"+sn[0]+"|"+sn[1]] = true
@@ -376,7 +379,7 @@ func (g *Gen) collectSelectors() {
 		if e == nil {
 			return
 		}
-		if e.Kind == SCall && (e.Name == "called" || e.Name == "succeeded" || e.Name == "count") && len(e.Args) == 1 {
+		if e.Kind == SCall && (e.Name == "called" || e.Name == "succeeded" || e.Name == "count" || e.Name == "allok") && len(e.Args) == 1 {
 			g.selectors[selName(e.Args[0])] = true
 		}
 		if e.Kind == SCall && e.Name == "since" && len(e.Args) == 2 {
